@@ -62,8 +62,12 @@ Fixpoint sum_abs (tr : list wev) : Z :=
 Fixpoint sum_chunk (tr : list wev) : Z :=
   match tr with [] => 0 | EvLzma u _ :: r => u + sum_chunk r | EvUnc u :: r => u + sum_chunk r | _ :: r => sum_chunk r end.
 
-(* the four sums at once *)
-Definition acct (tr : list wev) : Z * Z * Z * Z := (sum_sym tr, sum_fill tr, sum_abs tr, sum_chunk tr).
+(* the four sums and the symbol lengths at once *)
+(* the lengths of the symbols, newest first *)
+Fixpoint rsyms (tr : list wev) : list Z :=
+  match tr with [] => [] | EvSym len _ :: r => len :: rsyms r | _ :: r => rsyms r end.
+
+Definition acct (tr : list wev) : Z * Z * Z * Z * list Z := (sum_sym tr, sum_fill tr, sum_abs tr, sum_chunk tr, rsyms tr).
 
 (* ---------------------------------------------------------------------------------------------
    configuration *)
@@ -240,7 +244,7 @@ Lemma fill_window_spec p d n tr : wf_p p -> lzinv p d -> finishing d = false -> 
       ((pending_size d1 = pending_size d /\ ~ (0 < pending_size d /\ read_pos d1 < read_limit d1)) \/
        (0 < pending_size d /\ read_pos d1 < read_limit d1 /\ Kp p d1 /\
         (req_flush p <= write_pos d1 - read_pos d1 -> pending_size d1 = 0))) /\
-      acct tr1 = (sum_sym tr, sum_fill tr + used, sum_abs tr, sum_chunk tr)).
+      acct tr1 = (sum_sym tr, sum_fill tr + used, sum_abs tr, sum_chunk tr, rsyms tr)).
 Proof.
   intros W I Hfin Hn. pose proof I as [[Ha Hb] Hc [Hd He] [Hf Hg] Hpb].
   pose proof W as [W1 W2 W3 W4 W5 W6 W7 W8 W9 W10].
@@ -302,8 +306,8 @@ Proof.
   - destruct Hcase as [[Eq Hn']|(P1 & P2 & P3 & P4)].
     + left. subst d2. cbn [pending_size read_pos read_limit] in *. split; [reflexivity|exact Hn'].
     + right. rewrite A, B, C. repeat split; try assumption; try (rewrite A, B in P4; exact P4).
-  - rewrite F. unfold acct in *. cbn [sum_sym sum_fill sum_abs sum_chunk].
-    injection Etr1 as E1 E2' E3 E4. rewrite E1, E2', E3, E4. f_equal. f_equal. f_equal. lia.
+  - rewrite F. unfold acct in *. cbn [sum_sym sum_fill sum_abs sum_chunk rsyms].
+    injection Etr1 as E1 E2' E3 E4 E5. rewrite E1, E2', E3, E4, E5. f_equal. f_equal. f_equal. f_equal. lia.
 Qed.
 
 (* set_flushing / set_finishing *)
@@ -363,6 +367,31 @@ Section Oracle.
   Variable parse : PS -> Z -> Z -> strat PS.
   Variable chunkc : PS -> Z -> Z * PS.
 
+  (* The same consultation seen from the DATA alone: [A] is the number of bytes from the match
+     finder's position to the end of all the data the writer will ever get, [ra] the read-ahead.
+     This is what the parser would observe if the whole input were already in an unbounded window
+     and the writer were finishing. *)
+  Fixpoint irun (p : lzp) (s : strat PS) (A ra : Z) : option (Z * Z * bool * PS) :=
+    match s with
+    | SFail => None
+    | SMove k =>
+        let A1 := A - 1 in
+        if (A1 <? 1) || (extra_after p <? ra + 1) then None else
+        let ret := if (A1 <? req_flush p) && (A1 <? REQ_FINISH) then 0 else A1 in
+        irun p (k (Z.min ret (match_len_max p))) A1 (ra + 1)
+    | SAvail c k =>
+        if (ra <? 0) || (c <? 0) || (keep_after p <? c + ra) then None else irun p (k (Z.min A c)) A ra
+    | SEmit len full ps =>
+        if (len <? 1) || (ra + 1 <? len) || (mode_before p <=? ra - len) then None else Some (ra, len, full, ps)
+    end.
+
+  (* when the real consultation sees what the data-only consultation sees: the writer is finishing
+     and the window ends where the data ends, or the window holds the full look-ahead *)
+  Definition view_ok (p : lzp) (e : encd) (A : Z) : Prop :=
+    let av := write_pos (e_lz e) - read_pos (e_lz e) in
+    (finishing (e_lz e) = true /\ A = av) \/
+    (match_len_max p + extra_after p - read_ahead e <= av /\ av <= A).
+
   Lemma run_strat_spec p : wf_p p -> forall s e tr, minv p e ->
     okor (run_strat PS p s e tr) (fun r =>
       let '(e1, len, full, ps1, tr1) := r in
@@ -375,7 +404,8 @@ Section Oracle.
       1 <= len <= read_ahead e1 + 1 /\ read_ahead e1 - len < mode_before p /\
       pending_size (e_lz e) <= pending_size (e_lz e1) /\
       (match_len_max p + extra_after p <= write_pos (e_lz e) - pidx e -> pending_size (e_lz e1) = pending_size (e_lz e)) /\
-      acct tr1 = acct tr).
+      acct tr1 = acct tr /\
+      (forall A, view_ok p e A -> irun p s A (read_ahead e) = Some (read_ahead e1, len, full, ps1))).
   Proof.
     intros W. pose proof W as [W1 W2 W3 W4 W5 W6 W7 W8 W9 W10].
     induction s as [k IH|c k IH|len full ps|]; intros e tr M.
@@ -407,7 +437,7 @@ Section Oracle.
           - intros _. left. exact K1. }
         intros [[[[e1 len] full] ps1] tr1].
         cbn [e_lz read_ahead unc_size rc_full g_base].
-        intros (M1 & (k1 & Hk1 & Hk2 & Hk3 & Hk4) & X1 & X2 & X3 & X4 & X5 & X6 & X7 & X8 & X9 & X10 & X11).
+        intros (M1 & (k1 & Hk1 & Hk2 & Hk3 & Hk4) & X1 & X2 & X3 & X4 & X5 & X6 & X7 & X8 & X9 & X10 & X11 & X12).
         split; [exact M1|].
         split.
         { exists (k1 + 1). split; [lia|]. split; [lia|]. split; [lia|]. intros _.
@@ -418,15 +448,54 @@ Section Oracle.
         split.
         { unfold pidx in *. cbn [e_lz read_ahead] in X10. intros Hs.
           rewrite X10 by lia. apply Hbig. lia. }
-        rewrite X11. reflexivity.
+        split; [rewrite X11; reflexivity|].
+        (* the data-only consultation makes the same move *)
+        intros AA HV. cbn [irun]. unfold view_ok in HV. cbv zeta in HV.
+        set (av := write_pos (e_lz e) - read_pos (e_lz e)) in *.
+        assert (Hav1 : write_pos d1 - read_pos d1 = av - 1) by (unfold av; lia).
+        assert (Hmp : forall (Hfin : finishing (e_lz e) = true),
+                   ret = (if (av - 1 <? req_flush p) && (av - 1 <? REQ_FINISH) then 0 else av - 1)).
+        { intros Hfin. unfold move_pos in E. revert E.
+          destruct (Z.ltb_spec (req_flush p) REQ_FINISH); [unfold REQ_FINISH in *; lia|].
+          rewrite ck_i32_ok by (unfold I32_MIN, I32_MAX in *; lia). cbn [obind].
+          rewrite ck_i32_ok by (unfold I32_MIN, I32_MAX in *; lia). cbn [obind].
+          rewrite Hfin. cbn [negb]. rewrite orb_false_r.
+          replace (write_pos (e_lz e) - (read_pos (e_lz e) + 1)) with (av - 1) by (unfold av; lia).
+          destruct ((av - 1 <? req_flush p) && (av - 1 <? REQ_FINISH)).
+          { rewrite ck_u32_ok by (unfold U32_MAX, I32_MAX in *; lia). cbn [obind]. intros E. injection E as _ E. lia. }
+          intros E. injection E as _ E. lia. }
+        destruct HV as [[Hfin HA]|[Hst HA]].
+        { (* finishing: identical arithmetic *)
+          subst AA.
+          destruct (Z.ltb_spec (av - 1) 1); [lia|].
+          destruct (Z.ltb_spec (extra_after p) (read_ahead e + 1)); [lia|]. cbn [orb].
+          rewrite <- (Hmp Hfin). apply X12. unfold view_ok. cbn [e_lz read_ahead]. cbv zeta. left.
+          split; [congruence|lia]. }
+        (* full look-ahead on both sides: both observe the clamp *)
+        destruct (Z.ltb_spec (AA - 1) 1); [unfold av in *; lia|].
+        destruct (Z.ltb_spec (extra_after p) (read_ahead e + 1)); [lia|]. cbn [orb].
+        assert (Hge : match_len_max p <= av - 1) by lia.
+        assert (Hret : ret = av - 1) by (destruct Hbig as [Hb1 _]; [unfold av in *; lia|unfold av in *; lia]).
+        assert (Hi : (if (AA - 1 <? req_flush p) && (AA - 1 <? REQ_FINISH) then 0 else AA - 1) = AA - 1).
+        { destruct (Z.ltb_spec (AA - 1) (req_flush p)); [lia|]. reflexivity. }
+        rewrite Hi. rewrite Hret in X12.
+        replace (Z.min (AA - 1) (match_len_max p)) with (Z.min (av - 1) (match_len_max p)) by lia.
+        apply X12. unfold view_ok. cbn [e_lz read_ahead]. cbv zeta. right. lia.
     - (* SAvail *)
       pose proof M as [[[Ha Hb] Hc [Hd He] [Hf Hg] Hpb] [Hr1 Hr2] HK].
       cbn [run_strat].
       destruct (Z.ltb_spec (read_ahead e) 0); [cbn [orb okor]; left; reflexivity|]. cbn [orb].
-      destruct ((c <? 0) || (keep_after p <? c + read_ahead e)); [cbn [okor]; left; reflexivity|].
+      destruct ((c <? 0) || (keep_after p <? c + read_ahead e)) eqn:Ec; [cbn [okor]; left; reflexivity|].
       unfold get_avail. rewrite ck_i32_ok by (unfold I32_MIN, I32_MAX in *; lia). cbn [obind].
       eapply okor_weaken; [apply IH; exact M|].
-      intros [[[[e1 len] full] ps1] tr1]. auto.
+      intros [[[[e1 len] full] ps1] tr1].
+      intros (M1 & Hk & X1 & X2 & X3 & X4 & X5 & X6 & X7 & X8 & X9 & X10 & X11 & X12).
+      repeat (split; [assumption|]).
+      intros A HV. cbn [irun].
+      destruct (Z.ltb_spec (read_ahead e) 0); [lia|]. cbn [orb]. rewrite Ec. 
+      replace (Z.min A c) with (Z.min (write_pos (e_lz e) - read_pos (e_lz e)) c); [apply X12; exact HV|].
+      unfold view_ok in HV. cbv zeta in HV. apply orb_false_iff in Ec as [Ec1 Ec2].
+      apply Z.ltb_ge in Ec1, Ec2. destruct HV as [[_ HA]|[Hst HA]]; lia.
     - (* SEmit *)
       cbn [run_strat].
       destruct (Z.ltb_spec len 1); [cbn [orb okor]; left; reflexivity|].
@@ -434,7 +503,10 @@ Section Oracle.
       destruct (Z.leb_spec (mode_before p) (read_ahead e - len)); [cbn [orb okor]; left; reflexivity|].
       cbn [orb okor].
       split; [exact M|]. split; [exists 0; repeat split; lia|].
-      repeat split; try reflexivity; lia.
+      repeat split; try reflexivity; try lia.
+      intros A _. cbn [irun].
+      destruct (Z.ltb_spec len 1); [lia|]. destruct (Z.ltb_spec (read_ahead e + 1) len); [lia|].
+      destruct (Z.leb_spec (mode_before p) (read_ahead e - len)); [lia|]. reflexivity.
     - cbn [run_strat okor]. left; reflexivity.
   Qed.
 
@@ -499,9 +571,9 @@ Section Oracle.
       - lia.
       - intros Hp. destruct (HU Hp) as [K|[[K1 K2]|K]]; [left; exact K | lia | right; exact K]. }
     intros [[[[e1 len] full] ps1] tr1].
-    intros (M1 & (k1 & Hk1 & Hk2 & Hk3 & Hk4) & X1 & X2 & X3 & X4 & X5 & X6 & X7 & X8 & X9 & X10 & X11).
+    intros (M1 & (k1 & Hk1 & Hk2 & Hk3 & Hk4) & X1 & X2 & X3 & X4 & X5 & X6 & X7 & X8 & X9 & X10 & X11 & X12).
     pose proof M1 as [[[Ha' Hb'] Hc' [Hd' He'] [Hf' Hg'] Hpb'] [Hr1' Hr2'] HK'].
-    injection X11 as E1 E2 E3 E4.
+    injection X11 as E1 E2 E3 E4 E5.
     destruct (Z.ltb_spec (read_ahead e1) 0); [lia|].
     replace (read_pos (e_lz e1) - read_ahead e1) with (read_pos (e_lz e) - read_ahead e) by lia.
     destruct (Z.ltb_spec (read_pos (e_lz e) - read_ahead e - 1) 0); [lia|].
@@ -574,7 +646,7 @@ Section Oracle.
     change (-1 + 1 - 1 =? -1) with true. cbn [negb].
     rewrite Hunc. rewrite ck_u32_ok by (unfold U32_MAX; lia). cbn [obind].
     change (0 + 1 =? 1) with true. cbn [negb okor].
-    injection F as E1 E2 E3 E4.
+    injection F as E1 E2 E3 E4 E5.
     assert (Hpi : pidx (mkEncd d1 (-1 + 1 - 1) (0 + 1) (rc_full e) (g_base e)) = 1).
     { unfold pidx. cbn [e_lz read_ahead]. lia. }
     split.
@@ -728,7 +800,7 @@ Section Oracle.
     pose proof F as [Hfin Hsq Hpend HG].
     eapply okor_weaken; [apply (fill_window_spec p (e_lz e) n tr W (ei_lz _ _ _ _ I) Hfin Hn)|].
     intros [[d1 used] tr1] (off & L1 & F1 & O1 & O2 & O3 & R1 & U1 & U2 & Wp1 & Rl1 & Pcase & Acc).
-    injection Acc as E1 E2 E3 E4.
+    injection Acc as E1 E2 E3 E4 E5.
     pose proof L1 as [[Ha1 Hb1'] Hc1 [Hd1 He1] [Hf1 Hg1] Hpb1].
     assert (Hbase : g_base e + (read_pos (e_lz e) - read_pos d1) = g_base e + off) by lia.
     assert (Hpi : pidx (after_fill e d1) = pidx e - off) by (unfold pidx, after_fill; cbn [e_lz read_ahead]; lia).
@@ -906,7 +978,7 @@ Section Oracle.
     rewrite Hp.
     eapply okor_bind; [apply (set_finishing_spec p _ (l1_tr _ s) W (ei_lz _ _ _ _ I))|].
     intros [d1 tr1]. cbn [fst snd]. intros (L1 & R1 & Wp1 & Rl1 & Fin1 & Acc & Pcase).
-    injection Acc as E1 E2 E3 E4.
+    injection Acc as E1 E2 E3 E4 E5.
     pose proof I as [[[Ha Hb] Hc [Hd He] [Hf Hg] Hpb] [Hr1 Hr2] Hmb [Hb1 Hb2] Hh Hdict Hpx Hu HU Hfill Hsym Hchunk Horg'].
     assert (I1 : einv p org (with_lz (l1_e _ s) d1) tr1).
     { constructor; unfold with_lz, pidx, logical_pos in *; cbn [e_lz read_ahead unc_size g_base rc_full]; try rewrite R1; try rewrite Wp1;
@@ -993,7 +1065,7 @@ Section Oracle.
     { apply (mf_skip_spec p W); cbn [read_pos write_pos pending_size]; try lia. left; reflexivity. }
     cbn [read_pos write_pos pending_size read_limit finishing].
     intros [d1 tr1]. cbn [fst snd]. rewrite Z2Nat.id by lia. intros (A & B & C & D & E & K & Hbig & F).
-    injection F as E1 E2 E3 E4. cbn [sum_sym sum_fill sum_abs sum_chunk] in *.
+    injection F as E1 E2 E3 E4 E5. cbn [sum_sym sum_fill sum_abs sum_chunk rsyms] in *.
     assert (Hpb : pending_size d1 < req_flush p) by (destruct K as [K|K]; lia).
     split; [|split; [|split]].
     - constructor; unfold with_lz, pidx, logical_pos; cbn [e_lz read_ahead unc_size g_base rc_full]; try lia; try (left; reflexivity).
@@ -1001,7 +1073,7 @@ Section Oracle.
     - constructor; unfold with_lz, steady, quiet, pidx; cbn [e_lz read_ahead]; try lia.
       exact D.
     - unfold quiet, with_lz, pidx; cbn [e_lz read_ahead]. lia.
-    - unfold acct. cbn [sum_sym sum_fill sum_abs sum_chunk]. rewrite E1, E2, E3, E4. reflexivity.
+    - unfold acct. cbn [sum_sym sum_fill sum_abs sum_chunk rsyms]. rewrite E1, E2, E3, E4, E5. reflexivity.
   Qed.
 
   Lemma l1_new_spec normal bt4 dict nice preset expected ps0 : opts_ok dict nice ->
@@ -1018,8 +1090,8 @@ Section Oracle.
     rewrite E. cbn [obind].
     destruct preset as [plen|].
     - eapply okor_bind; [apply (preset_spec p dict plen W Ds Hbuf Hpl)|].
-      intros [d1 tr1]. cbn [fst snd okor]. intros (I & F & Q & Acc). injection Acc as E1 E2 E3 E4.
-      cbn [sum_sym sum_fill sum_abs sum_chunk] in *.
+      intros [d1 tr1]. cbn [fst snd okor]. intros (I & F & Q & Acc). injection Acc as E1 E2 E3 E4 E5.
+      cbn [sum_sym sum_fill sum_abs sum_chunk rsyms] in *.
       exists p. split; [exact W|]. split.
       { constructor; cbn [l1_p l1_e l1_tr l1_cur]; try reflexivity; try lia.
         split; [exact I|]. split; [exact F|]. split; [exact Q|exact E3]. }
@@ -1312,7 +1384,7 @@ Section Oracle.
           unfold COMPRESSED_SIZE_MAX, U. lia.
         - intros tr1 Acc. cbn [okor fst snd]. split; [reflexivity|]. split; [reflexivity|exact Acc]. }
       intros [[e2 u2] tr1] (Ee & Eu & Acc). cbn [fst snd] in Ee, Eu, Acc. subst e2 u2.
-      injection Acc as E1 E2 E3 E4. unfold TR, U in *. cbn [sum_sym sum_fill sum_abs sum_chunk] in *.
+      injection Acc as E1 E2 E3 E4 E5. unfold TR, U in *. cbn [sum_sym sum_fill sum_abs sum_chunk rsyms] in *.
       rewrite ck_u32_ok by (unfold U32_MAX, I32_MAX, pidx in *; lia). cbn [obind].
       rewrite ck_u64_ok by (unfold U64_MAX, UNC_BOUND, SYM_MAX, LZMA2_UNCOMPRESSED_LIMIT, I32_MAX, pidx in *; lia). cbn [obind okor].
       cbn [l2_chunk l2_e l2_tr l2_pending e_lz g_base unc_size rc_full read_ahead].
@@ -1335,7 +1407,7 @@ Section Oracle.
      (0 < pending_size (e_lz e) /\ Kp p d1)) ->
     einv p org (with_lz e d1) tr1.
   Proof.
-    intros I L1 R1 Wp1 Acc Pcase. injection Acc as E1 E2 E3 E4.
+    intros I L1 R1 Wp1 Acc Pcase. injection Acc as E1 E2 E3 E4 E5.
     pose proof I as [[[Ha Hb] Hc [Hd He] [Hf Hg] Hpb] [Hr1 Hr2] Hmb [Hb1 Hb2] Hh Hdict Hpx Hu HU Hfill Hsym Hchunk Horg'].
     constructor; unfold with_lz, pidx, logical_pos in *; cbn [e_lz read_ahead unc_size g_base rc_full]; try rewrite R1; try rewrite Wp1;
       try assumption; try lia.
@@ -1430,7 +1502,7 @@ Section Oracle.
     eapply okor_bind; [apply (set_flushing_spec p _ (l2_tr _ s) W (ei_lz _ _ _ _ I))|].
     intros [d1 tr1]. cbn [fst snd]. intros (L1 & R1 & Wp1 & Rl1 & Fin1 & Acc & Pcase).
     assert (I1 : einv p org (with_lz (l2_e _ s) d1) tr1) by (apply (set_limit_einv p org _ (l2_tr _ s)); assumption).
-    injection Acc as E1 E2 E3 E4.
+    injection Acc as E1 E2 E3 E4 E5.
     assert (L' : l2inv p org (l2_with_lz PS s (d1, tr1))).
     { constructor; unfold l2_with_lz; cbn [l2_p l2_new l2_e l2_tr l2_pending l2_unc fst snd]; try assumption; try lia. }
     eapply okor_bind.
@@ -1462,7 +1534,7 @@ Section Oracle.
     eapply okor_bind; [apply (set_finishing_spec p _ (l2_tr _ s) W (ei_lz _ _ _ _ I))|].
     intros [d1 tr1]. cbn [fst snd]. intros (L1 & R1 & Wp1 & Rl1 & Fin1 & Acc & Pcase).
     assert (I1 : einv p org (with_lz (l2_e _ s) d1) tr1) by (apply (set_limit_einv p org _ (l2_tr _ s)); assumption).
-    injection Acc as E1 E2 E3 E4.
+    injection Acc as E1 E2 E3 E4 E5.
     assert (L' : l2inv p org (l2_with_lz PS s (d1, tr1))).
     { constructor; unfold l2_with_lz; cbn [l2_p l2_new l2_e l2_tr l2_pending l2_unc fst snd]; try assumption; try lia. }
     eapply okor_bind.
@@ -1490,7 +1562,7 @@ Section Oracle.
     eapply okor_bind; [apply (set_flushing_spec p _ (l2_tr _ s) W (ei_lz _ _ _ _ I))|].
     intros [d1 tr1]. cbn [fst snd]. intros (L1 & R1 & Wp1 & Rl1 & Fin1 & Acc & Pcase).
     assert (I1 : einv p org (with_lz (l2_e _ s) d1) tr1) by (apply (set_limit_einv p org _ (l2_tr _ s)); assumption).
-    injection Acc as E1 E2 E3 E4.
+    injection Acc as E1 E2 E3 E4 E5.
     assert (L' : l2inv p org (l2_with_lz PS s (d1, tr1))).
     { constructor; unfold l2_with_lz; cbn [l2_p l2_new l2_e l2_tr l2_pending l2_unc fst snd]; try assumption; try lia. }
     eapply okor_bind.
@@ -1730,8 +1802,8 @@ Section Oracle.
     { unfold UNC_BOUND, SYM_MAX, LZMA2_UNCOMPRESSED_LIMIT. pose proof (wf_ea p W). lia. }
     destruct preset as [plen|].
     - eapply okor_bind; [apply (preset_spec p dict plen W Ds Hbuf Hpl)|].
-      intros [d1 tr1]. cbn [fst snd okor]. intros (I & F & Q & Acc). injection Acc as E1 E2 E3 E4.
-      cbn [sum_sym sum_fill sum_abs sum_chunk] in *.
+      intros [d1 tr1]. cbn [fst snd okor]. intros (I & F & Q & Acc). injection Acc as E1 E2 E3 E4 E5.
+      cbn [sum_sym sum_fill sum_abs sum_chunk rsyms] in *.
       exists p, (- Z.min plen dict). split; [exact W|]. split; [exact HH|]. split.
       { split.
         - constructor; cbn [l2_p l2_new l2_e l2_tr l2_pending l2_unc]; try assumption; try reflexivity; try lia.
